@@ -6,7 +6,7 @@ import time
 
 import z3
 
-from .common import Check, main_wrapper, native_batch
+from .common import run_native, Check, main_wrapper, native_batch
 from ..specs import header as H
 from .. import relang as RL
 
@@ -57,10 +57,26 @@ def run(tier, seed, replay):
 
     # ---------------------------------------------------------------- regular-language lemmas
     pattern, flags, method = H.extract_regex(chk.repo)
+    if pattern is None:
+        # not a literal handed to re.compile inside check_header (hoisted, built from parts): ask the
+        # imported module for its compiled patterns
+        try:
+            found = run_native("spell_harness", {"op": "module_patterns", "module": "norminette.rules.check_header",
+                                                 "cls": "CheckHeader"})["patterns"]
+        except Exception:
+            found = []
+        if len(found) == 1:
+            pattern, flags = found[0]["pattern"], found[0]["flags"] & ~int(re.UNICODE)
+            method = method or H.method_used(chk.repo)
     if pattern is None or method != "search":
-        chk.frame("regex.extracted", False, {"pattern": pattern, "method": method},
-                  what="the header regular expression / its use could not be located in CheckHeader.check_header")
-        return chk.finish()
+        # where the pattern is, or how it is applied, is not recognised: the language lemmas say
+        # nothing about this tree (undecided); the bounded stand-in through the real pipeline decides
+        from .common import Item
+        chk.items.append(Item("C13.regex.extracted", "frame-scan", "undecided", "frame-scan", 0.0,
+                              {"pattern": pattern, "method": method}))
+        chk.undecided.append("C13.regex.extracted: the header pattern or the way it is applied was not located in "
+                             "CheckHeader; language lemmas not evaluated")
+        return finish_bounded(chk, rnd, thorough)
     chk.frame("regex.extracted", True, {"pattern": pattern, "flags": flags, "method": method})
     compiled = re.compile(pattern, flags)
     try:
